@@ -6,6 +6,7 @@ CONSTANTS
   FixD3 = TRUE
   FixD10 = TRUE
   FixD12 = TRUE
+  FixD17 = TRUE
 INVARIANT TypeOK
 INVARIANT C04_OnlySnapshotOnce
 INVARIANT C04_InQueueOrder
